@@ -28,6 +28,8 @@ type Engine struct {
 	byTarget map[*ssa.Function]*Contract
 	targetOf map[*Contract]*ssa.Function
 	typeTags map[string]int
+	bounds   map[*ssa.Parameter]*Term
+	typeByString map[string]types.Type
 	tables   map[string]*Term
 	tableVals map[string][]int64
 	maxDepth int
@@ -38,7 +40,7 @@ type Engine struct {
 func newEngine(repo, mirror string) *Engine {
 	return &Engine{repo: repo, mirror: mirror, pkgs: map[string]*ssa.Package{}, lpkgs: map[string]*packages.Package{}, astFiles: map[string]*ast.File{},
 		finfo: map[*ssa.Function]*FuncInfo{}, strLits: map[string]*Term{}, strArr: map[string]*Term{}, byTarget: map[*ssa.Function]*Contract{},
-		targetOf: map[*Contract]*ssa.Function{}, typeTags: map[string]int{}, tables: map[string]*Term{}, maxDepth: 8, genSrc: map[string]string{}}
+		targetOf: map[*Contract]*ssa.Function{}, bounds: map[*ssa.Parameter]*Term{}, typeTags: map[string]int{}, typeByString: map[string]types.Type{}, tables: map[string]*Term{}, maxDepth: 8, genSrc: map[string]string{}}
 }
 
 func (e *Engine) load() error {
@@ -155,6 +157,17 @@ func (e *Engine) genFunc(c *Contract, suffix string) *ssa.Function {
 	return sp.Func(c.GenName + suffix)
 }
 
+// boundFor returns the canonical bound variable of a quantifier closure parameter, so that repeated
+// evaluations of the same spec expression give identical (hash-consed) quantified terms.
+func (e *Engine) boundFor(p *ssa.Parameter, s *Sort) *Term {
+	if t, ok := e.bounds[p]; ok {
+		return t
+	}
+	t := BoundVar(p.Name(), s)
+	e.bounds[p] = t
+	return t
+}
+
 func (e *Engine) typeTag(t types.Type) int {
 	k := types.TypeString(t, nil)
 	if n, ok := e.typeTags[k]; ok {
@@ -162,6 +175,7 @@ func (e *Engine) typeTag(t types.Type) int {
 	}
 	n := len(e.typeTags) + 1
 	e.typeTags[k] = n
+	e.typeByString[k] = t
 	return n
 }
 
@@ -202,7 +216,7 @@ type Unit struct {
 
 func (e *Engine) newCtx(name string, ct *Contract) *Ctx {
 	c := &Ctx{eng: e, unitName: name, contract: ct, nameCount: map[string]int{}, opaque: map[string]int{}, budget: 4000,
-		cellSort: map[int]*Sort{}, globalsWritten: map[string]bool{}, ghosts: map[string]Val{}}
+		cellSort: map[int]*Sort{}, globalsWritten: map[string]bool{}, ghosts: map[string]Val{}, wfDone: map[*Term]bool{}, sliceTerms: map[*Term]bool{}}
 	c.alive0 = FreshVar("alive0", SArray(SRef, SBool))
 	c.assume(Not(Select(c.alive0, BVLit(0, 64))))
 	if ct != nil && ct.Flags["fp"] != "" {
